@@ -234,6 +234,8 @@ class TermBuilder:
             rv = lf["stmt"]["rv"]
             name = rv.get("adt", rv["ak"]) + ("::" + rv["variant"] if "variant" in rv else "")
             t = ("agg", name, [self.term(o, depth + 1) for o in rv["ops"]])
+            if rv.get("ak") == "closure":
+                t = t + (rv.get("closure"),)      # t[3]: path of the closure body
             proj = tuple(p for p in lf["proj"] if p != "*")
             return ("proj", t, proj) if proj else t
         if k == "bin":
